@@ -124,7 +124,7 @@ class CG:
         return ["bin", "AND", ["par", ["fn", "INT", [["fn", "ABS", [self.num(depth, True)]]]]], ["num", "7", 7]]
 
 
-SLOTS = ["whole_rhs", "print_unary", "assign", "assign_elem", "sassign", "if", "if_body", "ifelse", "for", "print", "printat", "subscript_rhs", "on", "device", "width", "read_sub", "input_sub"]
+SLOTS = ["many_calls", "whole_rhs", "print_unary", "assign", "assign_elem", "sassign", "if", "if_body", "ifelse", "for", "print", "printat", "subscript_rhs", "on", "device", "width", "read_sub", "input_sub"]
 
 
 @st.composite
@@ -146,7 +146,26 @@ def cases(draw, switches):
     if slot == "ifelse" and "no_convertible_in_ifelse_cond" in switches:
         cg.excluded.hit("no_convertible_in_ifelse_cond")
         slot = "if"
-    if slot == "whole_rhs":
+    if slot == "many_calls":
+        # ten or more converted calls in one statement: temporaries beyond tmp_9 (two-digit numbering, declaration and ordering of tmp_10 ...)
+        k = draw(st.integers(10, 14))
+        terms = []
+        for i in range(k):
+            cg.n += 1
+            q = draw(st.integers(0, 3))
+            if q == 0:
+                terms.append(["fn", "INT", [["bin", "+", cg.var(), cbgen.lit_expr(i)]]])
+            elif q == 1:
+                terms.append(["fn", "VAL", [["str", str(i + 1)]]])
+            elif q == 2:
+                terms.append(["fn", "BUTTON", [["num", str(i % 4), i % 4]]])
+            else:
+                terms.append(["fn", "LEN", [["fn", "STR$", [cbgen.lit_expr(i * 7)]]]])
+        e_ = terms[0]
+        for i, t in enumerate(terms[1:]):
+            e_ = ["bin", "+", e_, ["bin", "*", t, cbgen.lit_expr(i + 2)]]
+        body = [["let", ["var", "X"], e_, False]] if draw(st.booleans()) else [["print", [["e", e_]]]]
+    elif slot == "whole_rhs":
         # the whole right-hand side is one call (the tool then assigns straight into the target), with and without LET
         cg.n += 1
         let = draw(st.booleans())
